@@ -53,12 +53,14 @@ pub fn lex(text: &str) -> Vec<String> {
     out
 }
 
-pub const VOCAB: [&str; 70] = [
+pub const VOCAB: [&str; 76] = [
     "%start", "%title", "%comment", "%grammar_type", "%line_comment", "%block_comment", "%auto_newline_off", "%auto_ws_off",
     "%skip", "%on", "%enter", "%push", "%pop", "%allow_unmatched", "%user_type", "%nt_type", "%t_type", "%scanner", "%%", "::",
     ":", ";", "|", "<", ">", "(", ")", "[", "]", "{", "}", ",", "@", "^", "=", "?=", "?!", "S", "A", "B", "INITIAL", "M1", "T0",
     "\"a\"", "'b'", "/c/", "'ll(k)'", "'lalr(1)'", "\"//\"", "'/*'", "'*/'", "\"x\\\"y\"", "// c\n", "/* c */", "x_1", "Self", "crate", "my", "\"[a-z]+\"", "'%'",
     // identifiers and separators outside ASCII (word characters of other scripts, digits, marks)
+    // literals that end in a backslash / an escaped backslash (scanner and delimiter edge cases)
+    "\"\\*\\\"", "\"\\\\\"", "\"C:\\\"", "'\\'", "/\\//", "\"\\(\\*\"",
     "Gr\u{f6}\u{df}e", "x\u{e9}", "a\u{661}", "_\u{4e16}", "\u{e9}", "n\u{2167}", "a\u{301}b", "\u{a0}", "A\u{130}", "\u{2028}",
 ];
 
